@@ -1,4 +1,5 @@
 import PMC.Model.Graph
+import PMC.Spec.Reach
 import Mathlib.Logic.Relation
 import Mathlib.Tactic
 
@@ -8,7 +9,6 @@ open Relation
 
 variable {σ : Type} [DecidableEq σ]
 
-abbrev Reach (next : σ → List σ) := ReflTransGen (fun a b => b ∈ next a)
 
 /-- work-list invariant -/
 structure WInv (next : σ → List σ) (X q R : List σ) : Prop where
